@@ -288,6 +288,33 @@ def zero_is_a_value_rule(index, rep, rid, modules, exempt=None):
                               "%s computes `%s`: %s" % (fi.qualname, norm(b)[:70],
                                                        "a value of 0 (a weight of 0 that switches a column off, a zero length or offset) is silently replaced by the default" if numeric else
                                                        "the option defaults to None meaning 'use the object's setting', so an explicit False is indistinguishable from None here and the object's setting wins over what the caller asked for"))
+            # (d) an empty container is a value too: a caller's container that the function goes on to fill or hand on
+            #     (a memo, an out-parameter) is replaced by a fresh one only when it is None
+            for st in walk_no_nested(fi.node):
+                pn = fresh = None
+                if isinstance(st, ast.If) and not st.orelse and len(st.body) == 1 and isinstance(st.body[0], ast.Assign) and len(st.body[0].targets) == 1 \
+                        and isinstance(st.body[0].targets[0], ast.Name) and isinstance(st.test, ast.UnaryOp) and isinstance(st.test.op, ast.Not) \
+                        and isinstance(st.test.operand, ast.Name) and st.test.operand.id == st.body[0].targets[0].id:
+                    pn, fresh = st.test.operand.id, st.body[0].value
+                elif isinstance(st, ast.Assign) and len(st.targets) == 1 and isinstance(st.targets[0], ast.Name) and isinstance(st.value, ast.BoolOp) and isinstance(st.value.op, ast.Or) \
+                        and len(st.value.values) == 2 and isinstance(st.value.values[0], ast.Name) and st.value.values[0].id == st.targets[0].id:
+                    pn, fresh = st.targets[0].id, st.value.values[1]
+                if pn is None or pn not in fi.all_params:
+                    continue
+                if not (isinstance(fresh, (ast.Dict, ast.List, ast.Set)) or (isinstance(fresh, ast.Call) and call_name(fresh) in ("dict", "list", "set", "OrderedDict", "defaultdict"))):
+                    continue
+                filled = False
+                for x in walk_no_nested(fi.node):
+                    if isinstance(x, ast.Subscript) and isinstance(x.ctx, (ast.Store, ast.Del)) and isinstance(x.value, ast.Name) and x.value.id == pn:
+                        filled = True
+                    elif isinstance(x, ast.Call):
+                        if isinstance(x.func, ast.Attribute) and isinstance(x.func.value, ast.Name) and x.func.value.id == pn and x.func.attr in MUTATORS:
+                            filled = True
+                        if any(isinstance(a, ast.Name) and a.id == pn for a in list(x.args) + [k.value for k in x.keywords]):
+                            filled = True
+                n += 1
+                rep.check(not filled, rid, fi.qualname, "`%s` replaced when empty" % pn, fn_where(fi, st), "",
+                          "%s replaces its parameter `%s` by a fresh container whenever it is empty (`%s`) and then fills it or hands it on: a caller that passes in an empty dict/list to collect the result (a mapping memo, an out-parameter) gets nothing back, because the function worked on a container of its own" % (fi.qualname, pn, norm_stmt(st)[:60]))
     return n
 
 
@@ -1378,6 +1405,11 @@ def structure_query_rule(index, rep, rid):
         rep.check(not rd, rid, f.qualname, "structure query reads the cached encoding: %s" % rd, fn_where(f), "%s reads no bipartition-encoding attribute" % f.qualname,
                   "%s%s reads `%s`: the bipartition encoding is a cache that is current only right after encode_bipartitions / update_bipartitions, and every restructuring call lets the caller skip the update - so after tips are pruned or added the size / iteration / statistic is answered from the tree as it WAS (N-bar divided by a stale leaf count, a traversal of leaves that are gone)"
                   % (f.qualname, "" if root is f else " (reached from %s)" % root.qualname, ", ".join(rd)))
+        if root is f:
+            ns = [x for x in ast.walk(f.node) if isinstance(x, ast.Attribute) and x.attr in ("taxon_namespace", "_taxon_namespace") and isinstance(x.ctx, ast.Load)]
+            rep.check(not ns, rid, f.qualname, "structure query consults the taxon namespace", fn_where(f, ns[0] if ns else None), "%s does not consult the taxon namespace" % f.qualname,
+                      "%s reads `%s`: the namespace is the universe the tree's taxa are drawn from, not the tree - it may hold taxa that are on no leaf (shared namespaces, pruned tips) and a leaf need not carry a taxon at all, so a size or shape answered from it is the wrong number for exactly those trees"
+                      % (f.qualname, norm(ns[0]) if ns else ""))
     return n
 
 
